@@ -13,6 +13,7 @@ static void list_units(const std::string& tier)
     // three levels: files whose nodes skip a middle level
     for (const Kind& k : all_set_kinds()) printf("kind=%s,shape=S6,sel=%s\n", k.name().c_str(), k.range=='b' ? "all" : "fam0");
     for (const Kind& k : all_rel_kinds()) printf("kind=%s,shape=S6,sel=fam0\n", k.name().c_str());
+    for (const char* sh : {"S1","S2","S3","S4","S6"}) for (const char* ir : {"F","Q"}) printf("mode=index,shape=%s,idx=%s\n", sh, ir);
     for (const Kind& k : all_rel_kinds()) {
         printf("kind=%s,shape=S1,sel=all\n", k.name().c_str());
         printf("kind=%s,shape=S2,sel=%s\n", k.name().c_str(), k.range=='b' ? "all" : "fam0");
@@ -104,4 +105,67 @@ static void run_unit(const std::map<std::string,std::string>& spec)
         lib_done();
     }
 }
-int main(int argc, char** argv) { return std_main(argc, argv, list_units, run_unit); }
+// ---- index-set forests (built by CONVERT_TO_INDEX_SET, the only way the library offers): file round trip into the same forest,
+// a second index-set forest, and a forest created from the file (fully-reduced writer = the library default)
+static void fmt_idx(char* buf, size_t n, const long* a)
+{
+    static const char* TG[3] = {"same forest","second index-set forest","forest created from the file"};
+    snprintf(buf,n,"index-set round trip shape=%s idx-rule=%c writer-storage=%c reader-storage=%c target=%s sets=(f%ld,f%ld) (bit p of a set number = membership of point p)", g_shape.c_str(), (char)a[0], (char)a[1], (char)a[2], TG[a[3]], a[4], a[5]);
+}
+static void run_index(const std::map<std::string,std::string>& spec)
+{
+    Shape s = shape_by_name(spec_get(spec,"shape")); g_shape = s.name;
+    Kind ks; ks.rel=false; ks.range='b'; ks.lab='m'; ks.rr='F';
+    Kind ki; ki.rel=false; ki.range='i'; ki.lab='x'; ki.rr=spec_get(spec,"idx","F")[0];
+    long P = s.setPoints(); unsigned long U = 1UL<<P;
+    std::vector<unsigned long> sets; if (U<=256) for (unsigned long i=0;i<U;i++) sets.push_back(i); else sets = structured_family(ks,s,{0,1},2,true);
+    auto rank_table = [&](unsigned long i) { Table t(P); long n=0; for (long p=0;p<P;p++) { if ((i>>p)&1) t[p]=(double)n++; else t[p]=INF; } return t; };
+    for (char ws : {'e','f','s'}) for (char rs : {'e','f','s'}) {
+        if (ctx.stop) break;
+        lib_init();
+        domain* d = make_domain(s);
+        Pol wp; wp.stor=ws; Pol rp; rp.stor=rs;
+        forest* FS = make_forest(d,ks,Pol()); forest* FW = make_forest(d,ki,wp); forest* FR = make_forest(d,ki,rp);
+        unary_operation* conv = (FS && FW) ? get_uop(CONVERT_TO_INDEX_SET(), FS, FW, "CONVERT_TO_INDEX_SET") : nullptr;
+        if (!FS || !FW || !FR || !conv) { lib_done(); continue; }
+        {
+            Builder BS(FS,ks,s);
+            for (size_t a=0; a<sets.size() && !ctx.stop; a++) {
+                unsigned long i1 = sets[a], i2 = sets[(a+1)%sets.size()];
+                std::vector<Table> tabs{rank_table(i1), rank_table(i2)};
+                std::vector<dd_edge> roots;
+                for (unsigned long i : {i1,i2}) { dd_edge b(FS); BS.build(tab_from_index(i,P,{0,1}), b); roots.emplace_back(FW); conv->compute(b, roots.back()); }
+                for (int target=0; target<3; target++) {
+                    if (target==2 && ki.rr!='F') continue;
+                    if (!case_lazy(fmt_idx, ki.rr, ws, rs, target, (long)i1, (long)i2)) continue;
+                    try {
+                        std::stringstream ss;
+                        { ostream_output out(ss); mdd_writer w(out, FW); for (auto& r : roots) w.writeRootEdge(r); w.finish(); }
+                        istream_input in(ss);
+                        forest* FT = target==0 ? FW : FR;
+                        std::vector<dd_edge> got;
+                        if (target<2) { mdd_reader rd(in, FT); for (size_t i=0;i<roots.size();i++) { got.emplace_back(FT); rd.readRootEdge(got.back()); } }
+                        else { mdd_reader rd(in, d); FT = rd.getForest(); if (!FT) { violation("no-forest","reader did not create a forest"); continue; }
+                               if (FT->getEdgeLabeling()!=edge_labeling::INDEX_SET) violation("wrong-forest-kind","the forest created from an index-set file is not an index-set forest");
+                               for (size_t i=0;i<roots.size();i++) { got.emplace_back(FT); rd.readRootEdge(got.back()); } }
+                        for (size_t i=0;i<roots.size();i++) {
+                            std::string err = check_edge(got[i],ki,s,tabs[i]);
+                            if (!err.empty()) { violation("wrong-function","root %zu [%s]: %s", i, tab_str(tabs[i]).c_str(), err.c_str()); continue; }
+                            if (target==0 && got[i]!=roots[i]) violation("noncanonical","root %zu read back into the same forest is a different edge for the same index set", i);
+                        }
+                        got.clear();
+                        std::string au = audit_forest(FT,ki);
+                        if (!au.empty()) violation("audit","receiving forest after the reader was destroyed: %s", au.c_str());
+                        if (target==2) forest::destroy(FT);
+                    } catch (MEDDLY::error e) { violation("op-error","threw %s (%s:%u)", e.getName(), e.getFile(), e.getLine()); }
+                    if (i1!=0) note_nontrivial(hmix(hmix(ws*3+rs,target), i1*65537+i2));
+                }
+                if (ctx.viol>ctx.maxviol && ctx.only<0 && ctx.upto<0) ctx.stop=true;
+            }
+        }
+        domain::destroy(d);
+        lib_done();
+    }
+}
+static void run_any(const std::map<std::string,std::string>& spec) { if (spec_get(spec,"mode","")=="index") run_index(spec); else run_unit(spec); }
+int main(int argc, char** argv) { return std_main(argc, argv, list_units, run_any); }
